@@ -122,11 +122,12 @@ def main(tier):
     RH.check(bits + 64 <= K['ISAL_DEF_MAX_HDR_SIZE'] * 8, 'include/igzip_lib.h:ISAL_DEF_MAX_HDR_SIZE', 'worst-case header %d bits + 64 bits slack exceeds %d bytes' % (bits, K['ISAL_DEF_MAX_HDR_SIZE']),
              sample='%d bits + 64 <= %d' % (bits, K['ISAL_DEF_MAX_HDR_SIZE'] * 8))
     check_table_cover(rep, mod)
+    check_eob_always(rep, mod)
     check_useable_schedule(rep, mod, K)
     return rep.finish()
 
 
-FILLERS = {'create_code_tables': ((0, 1), 2), 'create_packed_dist_table': ((0,), 1)}     # callee -> (destination argument indices, count argument index)
+FILLERS = {'create_code_tables': ((0, 1), 2), 'create_packed_dist_table': ((0,), 1), 'set_huff_codes': ((0,), 1)}     # callee -> (destination argument indices, count argument index)
 
 
 def check_table_cover(rep, mod):
@@ -218,3 +219,42 @@ def check_useable_schedule(rep, mod, K):
     R.check(set(range(0, 286)) <= loads[0], where, 'the literal/length scan does not visit every symbol 0..285 (visited %d)' % len(loads[0]), key='T-EXTRA-SCHEDULE|litscan', sample='all 286 lit/len symbols visited')
     R.check(cmpk == [K['MAX_BITBUF_BIT_WRITE']], where, 'the total is compared with %s, expected MAX_BITBUF_BIT_WRITE = %d' % (cmpk, K['MAX_BITBUF_BIT_WRITE']), key='T-EXTRA-SCHEDULE|limit',
             sample='sum > %d -> not usable' % K['MAX_BITBUF_BIT_WRITE'])
+
+
+def check_eob_always(rep, mod):
+    """isal_create_hufftables_subset leaves out literals that never occur.  Its heap initialiser takes the index from which symbols enter the
+    Huffman construction unconditionally; the end-of-block symbol 256 is not a literal and terminates every block, so it must lie in that
+    unconditional part.  Decided from the initialiser's own loops (which stores depend on the histogram) and the constant passed by the caller."""
+    import scev
+    R = rep.rule('R-EOB-ALWAYS', 'isal_create_hufftables_subset: the symbol range that enters the Huffman construction only when its histogram count is non-zero (the data-dependent loop of init_heap64_semi_complete, '
+                 'its trip count being the argument complete_start) ends at or before symbol 256: the end-of-block symbol always gets a code, whatever the histogram', floor=1, unit='call sites')
+    g = mod.funcs.get('init_heap64_semi_complete')
+    if g is None:
+        raise AnalysisBroken('init_heap64_semi_complete not found')
+    # the first loop's store is control dependent on a histogram load, the second's is not; the first runs complete_start times
+    exits = irrules.natural_loops(g)
+    P = irrules.prov(mod, g)
+    cond_loops = []
+    for h, L in exits.items():
+        for b in L:
+            t = g.blocks[b].insns[-1]
+            if t.op == 'br' and t.extra.get('cond') and b != h and any(d[0] == 'mem' for d in P.deps(t.extra['cond'])):
+                cond_loops.append(h)
+    A = scev.analysis('default')
+    F = scev.Forms(A, 'init_heap64_semi_complete', [])
+    cs = g.params[3][1]
+    ok_shape = False
+    for h in set(cond_loops):
+        c = F.count(h)
+        if c is not None and any(cs in m for m in c):
+            ok_shape = True
+    if not ok_shape:
+        raise AnalysisBroken('init_heap64_semi_complete: no histogram-filtered loop whose trip count is complete_start')
+    sites = [(f, i) for fn, f in mod.funcs.items() for i in f.all_insns() if i.op == 'call' and base_name(i.callee or '') == 'init_heap64_semi_complete']
+    if not sites:
+        raise AnalysisBroken('no call of init_heap64_semi_complete')
+    for f, i in sites:
+        R.instance()
+        v = i.args[3][1]
+        R.check(re.match(r'^\d+$', v) is not None and int(v) <= 256, mod.where(f, i), '%s filters symbols 0..%s-1 by their histogram count: the end-of-block symbol 256 gets no code when its count is 0 and the histogram needs no '
+                'length-limiting fallback, and every stream compressed with the table is then unterminated / undecodable' % (f.name, v), key='R-EOB-ALWAYS|%s' % f.name, sample='%s: filtered range ends at %s' % (f.name, v))
